@@ -35,6 +35,7 @@ type vSrvScenario struct {
 	Shutdown  bool              `json:"shutdown"`
 	Deadline  int               `json:"deadline"` // ms
 	Pollers   int               `json:"pollers"`
+	Pusher    bool              `json:"pusher"` // a server-side goroutine (outside any handler) pushes a payload far above the socket buffer to the first connection
 }
 
 func vRunSrvScenario(sc *vSrvScenario) ([]vOutEvent, map[string]interface{}) {
@@ -93,8 +94,15 @@ func vRunSrvScenario(sc *vSrvScenario) ([]vOutEvent, map[string]interface{}) {
 	shutdownDone := false
 	clientClosed := map[int]bool{} // by server-side fd, set by the handler's wait
 	opts := &options{}
+	var first *connection
 	opts.onPrepare = func(c Connection) context.Context {
 		fd := c.(*connection).fd
+		if first == nil {
+			first = c.(*connection)
+			if sc.Pusher {
+				syscall.SetsockoptInt(fd, syscall.SOL_SOCKET, syscall.SO_SNDBUF, 4096)
+			}
+		}
 		c.AddCloseCallback(func(Connection) error {
 			ev("ConnClosed", "", fd, 0, "")
 			return nil
@@ -168,6 +176,28 @@ func vRunSrvScenario(sc *vSrvScenario) ([]vOutEvent, map[string]interface{}) {
 				ev("ClientClose", "", ci+1, 0, "")
 			}
 			time.Sleep(300 * time.Microsecond)
+		})
+	}
+	if sc.Pusher {
+		s.Go("pusher", func() {
+			defer func() {
+				if x := recover(); x != nil {
+					ev("Panic", "pusher", 0, 0, fmt.Sprint(x))
+				}
+			}()
+			s.BlockUntil(func() bool {
+				if first == nil {
+					return false
+				}
+				_, ok := svr.connections.Load(first.fd)
+				return ok
+			})
+			if first == nil || !s.active {
+				return // the scenario ended before any connection was tracked
+			}
+			ev("PushStart", "", first.fd, 0, "")
+			_, err := first.Write(make([]byte, 600000)) // the client never reads: the flush stays blocked
+			ev("PushEnd", "", first.fd, 0, vErrClass(err))
 		})
 	}
 	if sc.Shutdown {
